@@ -26,6 +26,17 @@ def monitor_find(n, hits, out):
         return False, "element evaluated twice"
     return True, ""
 
+def monitor_policy(meta, out):
+    """the clause itself: the source may run in parallel / unsequenced only if every layer permits it"""
+    layers = [{"none": "seq", "join": "par_unseq"}.get(meta[0], meta[0])] + list(meta[1:])
+    if out not in ("seq", "unseq", "par", "par_unseq"):
+        return False, "unparsable/crash: " + out[:120]
+    if "par" in out and not all("par" in l for l in layers):
+        return False, "source licensed to run in parallel although a layer is not parallel"
+    if "unseq" in out and not all("unseq" in l for l in layers):
+        return False, "source licensed to run unsequenced although a layer is not unsequenced"
+    return True, ""
+
 def monitor_bulk(n, out):
     try:
         t, v = out.split(" ", 1)
@@ -65,6 +76,10 @@ def gen_cases(chk):
             cases.append(("find_par", "find_par %d | %s" % (n, hl), "find_par %d | %s" % (n, hl), (n, h)))
             if n <= 300 or n % 50 == 0:
                 cases.append(("find_seq", "find_seq %d | %s" % (n, hl), "find_seq %d | %s" % (n, hl), (n, h)))
+                # a predicate whose truthy results are ints other than 1 (contextual conversion to bool)
+                cases.append(("find_seq", "find_seq %d | %s" % (n, hl), "find_seq_int %d | %s" % (n, hl), (n, h)))
+            if h and (n <= 64 or n % 10 == 0):
+                cases.append(("find_par", "find_par %d | %s" % (n, hl), "find_par_int %d | %s" % (n, hl), (n, h)))
     # thread pool as the scheduler: result only (visit order is schedule dependent)
     for n in ([0, 1, 5, 126, 160, 200, 991] + [rng.randrange(1, 1500) for _ in range(20 if thorough else 4)]):
         for h in ([], [n // 3] if n else []):
@@ -77,6 +92,14 @@ def gen_cases(chk):
         for k in ks:
             for pol in ("seq", "par", "unseq", "par_unseq", "stack"):
                 cases.append(("bulk", "bulk_indices %d %s" % (n, k), "bulk_indices %d %s %s" % (n, k, pol), (n, k, pol)))
+    # execution policies: every stack of up to three bulk_transforms over every kind of bottom receiver
+    pols = ("seq", "unseq", "par", "par_unseq")
+    import itertools
+    for b in ("none", "join") + pols:
+        for d in range(0, 4):
+            for ps in itertools.product(pols, repeat=d):
+                l = "policy %s %s" % (b, " ".join(ps))
+                cases.append(("policy", l.strip(), l.strip(), (b,) + ps))
     return cases
 
 def run(chk, replay=None):
@@ -85,7 +108,7 @@ def run(chk, replay=None):
         "extraction ExtrOcamlBasic only; ocaml/conv.ml, handlers/h_findif.ml, driver.ml glue",
         "harness/k3_c17.cpp (recording predicate / many-receiver), g++ 12.2",
         "modelled not verified: iterator arithmetic is Z offsets (no overflow of diff_t); thread-pool visit order not compared (result only)"]
-    chk.cov["rule"] = ("cases = (n, hit set) for find_if seq/par and (count, stop block, policy) for bulk_schedule; "
+    chk.cov["rule"] = ("cases = (n, hit set) for find_if seq/par and (count, stop block, policy) for bulk_schedule, (bottom receiver, transform policies) for the policy intersection; "
                        "non-trivial = has a hit, or n > 0 with a stop position, i.e. not the empty/no-stop case; distinct by input line")
     chk.prove()
     exe, err = vlib.build_driver("k3_c17", "plain17")
@@ -105,7 +128,8 @@ def run(chk, replay=None):
     for (kind, ml, il, meta), io in zip(cases, iout):
         mo = mout[ml]
         dist[kind] = dist.get(kind, 0) + 1
-        nontrivial = (kind != "bulk" and len(meta[1]) > 0) or (kind == "bulk" and meta[0] > 0 and meta[1] != "none")
+        nontrivial = ((kind == "policy" and len(meta) > 1) or (kind not in ("bulk", "policy") and len(meta[1]) > 0)
+                      or (kind == "bulk" and meta[0] > 0 and meta[1] != "none"))
         chk.count(il, nontrivial)
         if kind == "find_pool":   # compare result only; monitor the visited set
             agree = (io.split(" ")[0] == mo.split(" ")[0])
@@ -119,7 +143,9 @@ def run(chk, replay=None):
                 chk.sample({"impl_line": il, "impl": io[:160], "model": mo[:160]})
             continue
         chk.cov["disagreements_checked"] += 1
-        if kind == "bulk":
+        if kind == "policy":
+            ok, why = monitor_policy(meta, io)
+        elif kind == "bulk":
             ok, why = monitor_bulk(meta[0], io)
             # the stop lands exactly before block k: done with 16k indices, or value with all
             if ok and meta[1] != "none" and 16 * int(meta[1]) < meta[0]:
@@ -132,7 +158,9 @@ def run(chk, replay=None):
                               "model": mo, "impl": io, "monitor": why,
                               "obligation": "K3 correspondence FindIfDefs vs find_if.hpp/bulk_schedule.hpp",
                               "replay": "echo '%s' | <cache>/k3_c17_plain17_*" % il})
-        if kind == "bulk":
+        if kind == "policy":
+            key = "policy/%s" % ("monitor" if not ok else "corr")
+        elif kind == "bulk":
             key = "bulk/%s" % ("monitor" if not ok else "corr")
         elif kind == "find_seq":
             key = "find_if/seq/%s" % ("monitor" if not ok else "corr")
